@@ -87,9 +87,19 @@ static void onMessage(const TcpConnectionPtr&, Buffer* b, Timestamp) {
   runHook("msg");
   b->retrieve(std::min(g_retrieveMax, b->readableBytes()));
 }
-static void onWriteComplete(const TcpConnectionPtr&) { emitLine("cb WC"); runHook("wc"); }
-static void onHighWater(const TcpConnectionPtr&, size_t n) {
-  char line[64]; snprintf(line, sizeof line, "cb HWM %zu", n); emitLine(line); runHook("hwm");
+// the user's write-complete / high-water-mark callbacks carry an identity (which std::function object this is):
+// `setwc <id>` / `sethwm <id> <mark>` install callback <id> (0 = an empty std::function), the output says which one ran
+static void onWriteComplete(int id, const TcpConnectionPtr&) {
+  char line[64]; snprintf(line, sizeof line, "cb WC %d", id); emitLine(line); runHook("wc");
+}
+static void onHighWater(int id, const TcpConnectionPtr&, size_t n) {
+  char line[64]; snprintf(line, sizeof line, "cb HWM %d %zu", id, n); emitLine(line); runHook("hwm");
+}
+static WriteCompleteCallback wcOf(int id) {
+  return id ? WriteCompleteCallback(std::bind(&onWriteComplete, id, std::placeholders::_1)) : WriteCompleteCallback();
+}
+static HighWaterMarkCallback hwmOf(int id) {
+  return id ? HighWaterMarkCallback(std::bind(&onHighWater, id, std::placeholders::_1, std::placeholders::_2)) : HighWaterMarkCallback();
 }
 static void onClose(const TcpConnectionPtr& c) {
   emitLine("cb CLOSE");
@@ -123,6 +133,9 @@ static void doAct(const std::vector<std::string>& w, size_t i) {
   else if (a == "forceCloseDelay") c->forceCloseWithDelay(static_cast<double>(atoll(w[i + 1].c_str())) / 1e6);
   else if (a == "stopRead") c->stopRead();
   else if (a == "startRead") c->startRead();
+  // plain member assignments in muduo (not thread safe): the generator issues them from the loop thread / inside callbacks
+  else if (a == "setwc") c->setWriteCompleteCallback(wcOf(atoi(w[i + 1].c_str())));
+  else if (a == "sethwm") c->setHighWaterMarkCallback(hwmOf(atoi(w[i + 1].c_str())), strtoull(w[i + 2].c_str(), NULL, 10));
 }
 
 static void recordPoll(const std::vector<std::pair<int, int> >& v) {
@@ -191,8 +204,8 @@ static bool interp() {
       // config <wc:0|1> <hwm:0|1> <mark>
       g_hasWC = w[1] == "1"; g_hasHWM = w[2] == "1"; g_mark = strtoull(w[3].c_str(), NULL, 10);
       if (g_conn) {
-        if (g_hasWC) g_conn->setWriteCompleteCallback(onWriteComplete);
-        g_conn->setHighWaterMarkCallback(g_hasHWM ? HighWaterMarkCallback(onHighWater) : HighWaterMarkCallback(), g_mark);
+        g_conn->setWriteCompleteCallback(wcOf(g_hasWC ? 1 : 0));
+        g_conn->setHighWaterMarkCallback(hwmOf(g_hasHWM ? 1 : 0), g_mark);
       }
     } else if (op == "establish") {
       if (g_conn) g_conn->connectEstablished();
